@@ -1,6 +1,7 @@
 package props
 
 import (
+	"bufio"
 	"bytes"
 	"compress/zlib"
 	"encoding/json"
@@ -36,7 +37,8 @@ type RUse struct {
 	In     RInput `json:"in"`
 	Plan   string `json:"plan"` // none | partial | full
 	K      int    `json:"k,omitempty"`
-	Single bool   `json:"single,omitempty"` // gzip: Multistream(false) was called during this use
+	Single bool   `json:"single,omitempty"`  // gzip: Multistream(false) was called during this use
+	OwnBuf int    `json:"own_buf,omitempty"` // this use reads through a caller-owned *bufio.Reader of this size with extra bytes after the stream; the Reader must never touch it again once Reset onto another source
 }
 
 type C13Case struct {
@@ -45,7 +47,20 @@ type C13Case struct {
 	Next   RInput `json:"next"`
 	Reads  []int  `json:"reads"`
 	Chunks []int  `json:"chunks"`
+	// SameSrc: every use hands the Reader the same source object (not a *bufio.Reader), refilled in
+	// between; earlier inputs are followed by Suffix further bytes that the Reader may have read ahead
+	SameSrc bool `json:"same_src,omitempty"`
+	Suffix  int  `json:"suffix,omitempty"`
+	// SharedDict: zlib dictionaries of all uses are written into one buffer owned by the caller
+	// (same backing array; contents replaced between uses)
+	SharedDict bool `json:"shared_dict,omitempty"`
 }
+
+// refillSrc is a source object a caller keeps and refills (a pooled connection wrapper, a
+// bytes.Reader that is Reset): the same value is handed to every NewReader/Reset.
+type refillSrc struct{ cur io.Reader }
+
+func (r *refillSrc) Read(p []byte) (int, error) { return r.cur.Read(p) }
 
 func recipeBytes(r *gen.Recipe) []byte {
 	if r == nil {
@@ -157,7 +172,10 @@ type pkgReader struct {
 
 // open constructs (first use) or resets the reader onto z.
 func (p *pkgReader) open(z []byte, chunks []int, rdict []byte, fresh bool) (t transcript, r io.Reader) {
-	src := makeSource(z, chunks, false)
+	return p.openSrc(makeSource(z, chunks, false), rdict, fresh)
+}
+
+func (p *pkgReader) openSrc(src io.Reader, rdict []byte, fresh bool) (t transcript, r io.Reader) {
 	switch p.pkg {
 	case "flate":
 		if p.fl == nil || fresh {
@@ -257,6 +275,9 @@ func drawC13(t *rapid.T) C13Case {
 		if c.Pkg == "gzip" {
 			u.Single = rapid.IntRange(0, 2).Draw(t, "single") == 0
 		}
+		if rapid.IntRange(0, 2).Draw(t, "ownbuf") == 0 {
+			u.OwnBuf = rapid.SampledFrom([]int{16, 64, 4096, 65536}).Draw(t, "ownbufsize")
+		}
 		u.K = rapid.SampledFrom([]int{1, 2, 10, 100, 1000, 5000, 40000}).Draw(t, "k")
 		c.Before = append(c.Before, u)
 	}
@@ -284,6 +305,46 @@ func drawC13(t *rapid.T) C13Case {
 	}
 	c.Reads = drawReadSizes(t)
 	c.Chunks, _ = drawChunks(t)
+	if rapid.IntRange(0, 3).Draw(t, "samesrc") == 0 {
+		c.SameSrc = true
+		c.Suffix = rapid.SampledFrom([]int{0, 1, 8, 40, 40, 5000}).Draw(t, "suffix")
+		for i := range c.Before {
+			c.Before[i].OwnBuf = 0
+			if rapid.IntRange(0, 1).Draw(t, "fullplan") == 0 {
+				c.Before[i].Plan = "full"
+			}
+		}
+	}
+	if c.Pkg == "zlib" && rapid.IntRange(0, 2).Draw(t, "shareddict") == 0 {
+		// a rolling dictionary kept in one buffer: same length every time, contents replaced
+		c.SharedDict = true
+		n := rapid.IntRange(1, 600).Draw(t, "sdlen")
+		mk := func(seed uint64) *gen.Recipe {
+			return &gen.Recipe{Segs: []gen.Seg{{Kind: "text", N: n, Seed: seed}}}
+		}
+		for i := range c.Before {
+			d := mk(uint64(10 + i))
+			c.Before[i].In.Dict, c.Before[i].In.RDict = d, d
+			if c.Before[i].In.Stream.Kind != "valid" && rapid.Bool().Draw(t, "mkvalid") {
+				c.Before[i].In.Stream = drawValidStream(t, 8<<10)
+			}
+		}
+		switch rapid.IntRange(0, 2).Draw(t, "sdnext") {
+		case 0:
+			d := mk(99)
+			c.Next.Dict, c.Next.RDict = d, d
+		case 1:
+			// stream written with the contents an earlier use had, reader holds the new contents
+			c.Next.Dict, c.Next.RDict = mk(uint64(10+len(c.Before)-1)), mk(99)
+		default:
+			// stream written with the new contents, checked against ... the new contents again after a wrong one
+			c.Next.Dict, c.Next.RDict = mk(99), mk(uint64(10+len(c.Before)-1))
+		}
+		if rapid.Bool().Draw(t, "sdvalid") {
+			c.Next.Stream = drawValidStream(t, 8<<10)
+			c.Next.BadSum, c.Next.CutTail = false, 0
+		}
+	}
 	return c
 }
 
@@ -291,14 +352,66 @@ func checkC13(c C13Case) (labels []string, nontrivial bool, err error) {
 	defer guardPanic(&err)
 	used := &pkgReader{pkg: c.Pkg}
 	leftover := false
+	type callerBuf struct {
+		br       *bufio.Reader
+		under    *bytes.Reader
+		buffered []byte
+		rest     int
+	}
+	var owned []*callerBuf
+	same := &refillSrc{}
+	var sharedDict []byte
+	dictFor := func(r *gen.Recipe) []byte {
+		d := recipeBytes(r)
+		if !c.SharedDict || d == nil {
+			return d
+		}
+		if sharedDict == nil {
+			sharedDict = make([]byte, 4096)
+		}
+		if len(d) > len(sharedDict) {
+			return d
+		}
+		copy(sharedDict, d)
+		return sharedDict[:len(d)]
+	}
+	snapshot := func(cb *callerBuf) {
+		b, _ := cb.br.Peek(cb.br.Buffered())
+		cb.buffered = append([]byte(nil), b...)
+		cb.rest = cb.under.Len()
+	}
 	for i, u := range c.Before {
 		z, err := buildContainer(c.Pkg, u.In)
 		if err != nil {
 			return nil, false, err
 		}
-		_, r := used.open(z, nil, recipeBytes(u.In.RDict), false)
+		var r io.Reader
+		hadReader := used.fl != nil || used.gz != nil || used.zl != nil
+		var cb *callerBuf
+		if u.OwnBuf > 0 {
+			// the caller's own buffered reader, with other data after the stream
+			all := append(append([]byte(nil), z...), []byte("CALLER-DATA-AFTER-THE-STREAM-0123456789")...)
+			cb = &callerBuf{under: bytes.NewReader(all)}
+			cb.br = bufio.NewReaderSize(cb.under, u.OwnBuf)
+			_, r = used.openSrc(cb.br, dictFor(u.In.RDict), !hadReader)
+			owned = append(owned, cb)
+			labels = append(labels, "before:caller-owned-bufio")
+		} else if c.SameSrc {
+			all := append([]byte(nil), z...)
+			for k := 0; k < c.Suffix; k++ {
+				all = append(all, byte(0xA5+k*7))
+			}
+			same.cur = bytes.NewReader(all)
+			_, r = used.openSrc(same, dictFor(u.In.RDict), !hadReader)
+			labels = append(labels, "before:same-source-object")
+		} else {
+			_, r = used.open(z, nil, dictFor(u.In.RDict), false)
+		}
 		if r == nil {
 			labels = append(labels, "before:open-failed")
+			if cb != nil {
+				snapshot(cb)
+			}
 			continue
 		}
 		if u.Single && used.gz != nil {
@@ -328,6 +441,9 @@ func checkC13(c C13Case) (labels []string, nontrivial bool, err error) {
 			labels = append(labels, "before:no-reads")
 		}
 		_ = i
+		if cb != nil {
+			snapshot(cb)
+		}
 	}
 	z, err := buildContainer(c.Pkg, c.Next)
 	if err != nil {
@@ -344,12 +460,24 @@ func checkC13(c C13Case) (labels []string, nontrivial bool, err error) {
 	var got transcript
 	var ur io.Reader
 	hasReader := used.fl != nil || used.gz != nil || used.zl != nil
-	got, ur = used.open(z, c.Chunks, rd, !hasReader)
+	if c.SameSrc {
+		same.cur = makeSource(z, c.Chunks, false)
+		got, ur = used.openSrc(same, dictFor(c.Next.RDict), !hasReader)
+	} else {
+		got, ur = used.open(z, c.Chunks, dictFor(c.Next.RDict), !hasReader)
+	}
 	if ur != nil {
 		got.Out, got.Err = drain(ur, c.Reads)
 	}
 	if d := got.diff(want); d != "" {
 		return nil, false, fmt.Errorf("%s Reader after Reset: %s", c.Pkg, d)
+	}
+	// a caller-owned bufio.Reader used earlier must be exactly as the Reader left it
+	for k, cb := range owned {
+		now, _ := cb.br.Peek(cb.br.Buffered())
+		if !bytes.Equal(now, cb.buffered) || cb.under.Len() != cb.rest {
+			return nil, false, fmt.Errorf("%s Reader: after Reset onto another source, the caller's *bufio.Reader used for earlier stream %d was touched again: it held %d buffered + %d unread bytes when the Reader left it, now %d + %d", c.Pkg, k+1, len(cb.buffered), cb.rest, len(now), cb.under.Len())
+		}
 	}
 	labels = append(labels, "pkg:"+c.Pkg, "next:"+firstWord(want.Err))
 	if c.Next.Stream.Kind == "synth" && c.Next.Stream.Synth.Fault != nil && c.Next.Stream.Synth.Fault.Kind == synth.FDistTooFar {
@@ -357,6 +485,12 @@ func checkC13(c C13Case) (labels []string, nontrivial bool, err error) {
 	}
 	if c.Pkg == "zlib" && (c.Next.Dict != nil || c.Next.RDict != nil) {
 		labels = append(labels, "zlib-dictionary-involved")
+	}
+	if c.SharedDict {
+		labels = append(labels, "zlib-dictionary-buffer-rewritten-in-place")
+	}
+	if c.SameSrc {
+		labels = append(labels, "same-source-object-refilled")
 	}
 	return labels, hasReader && leftover && len(z) > 0, nil
 }
